@@ -249,7 +249,18 @@ pub fn main(args: &Args) -> std::io::Result<()> {
                 // without tangents, and on a hatcher that has been used before: the same segments
                 let mut pat2 = Pattern { offsets: vec![iv; 400], k: 0, segs: vec![] };
                 let mut h = Hatcher::new();
-                h.hatch_path(lyon_path::Path::new().iter(), &HatchingOptions::DEFAULT, &mut Pattern { offsets: vec![1.0; 4], k: 0, segs: vec![] });
+                {
+                    // a different, non-empty path first: nothing of it may survive in the hatcher
+                    let mut pb = lyon_path::Path::builder();
+                    pb.begin(point(-30.0, -30.0));
+                    pb.line_to(point(30.0, -30.0));
+                    pb.line_to(point(30.0, 30.0));
+                    pb.line_to(point(-30.0, 30.0));
+                    pb.end(true);
+                    let warm = pb.build();
+                    h.hatch_path(warm.iter(), &HatchingOptions::DEFAULT, &mut Pattern { offsets: vec![1.0; 80], k: 0, segs: vec![] });
+                    h.dot_path(warm.iter(), &DotOptions::DEFAULT, &mut Dots { row_iv: 5.0, col_iv: 5.0, dots: vec![] });
+                }
                 h.hatch_path(path.iter(), &opts.with_tangents(false), &mut pat2);
                 if pat2.segs != pat.segs {
                     panic!("with_tangents(false) / a reused hatcher changes the segments");
@@ -257,6 +268,11 @@ pub fn main(args: &Args) -> std::io::Result<()> {
                 let mut dots = Dots { row_iv: iv, col_iv: 0.5, dots: vec![] };
                 let dopts = DotOptions::DEFAULT.with_angle(Angle::radians(angle)).with_tolerance(tol);
                 Hatcher::new().dot_path(path.iter(), &dopts, &mut dots);
+                let mut dots2 = Dots { row_iv: iv, col_iv: 0.5, dots: vec![] };
+                h.dot_path(path.iter(), &dopts, &mut dots2);
+                if dots2.dots != dots.dots {
+                    panic!("a reused hatcher places different dots");
+                }
                 (pat.segs, dots.dots)
             }));
             match r {
